@@ -37,16 +37,23 @@ def search(strategy, test_fn, rec, *, seed, max_examples, shrink_budget_s=20.0, 
             state["n"] += 1
             try:
                 test_fn(case)
+                return
             except Violation as v:
                 if v.signature in excluded:
                     rec.excluded[v.signature] += 1
                     return
                 if state["t_first"] is None:
                     state["t_first"] = time.time()
-                state["best"] = case
-                state["best_key"] = key or json.dumps(case, sort_keys=True, default=repr)
-                state["v"] = v
-                raise
+                    state["n_gen"] = state["n"]
+                k2 = key or json.dumps(case, sort_keys=True, default=repr)
+                if state["best_key"] is None or len(k2) <= len(state["best_key"]):
+                    # keep the smallest really-failing case seen (what Hypothesis converges to as well)
+                    state["best"], state["best_key"], state["v"] = case, k2, v
+                fresh = Violation(v.signature, v.observed, v.expected, v.extra)
+            # re-raised from this single site so that Hypothesis sees ONE failure origin (it would
+            # otherwise shrink and finally replay one example per raise site, which the shrink budget
+            # below turns into a FlakyFailure)
+            raise fresh from None
 
         runner = hypothesis.seed(seed * 7919 + rnd)(
             settings(
@@ -57,11 +64,15 @@ def search(strategy, test_fn, rec, *, seed, max_examples, shrink_budget_s=20.0, 
         )
         try:
             runner()
-        except Violation:
+        except (Violation, hypothesis.errors.Flaky, hypothesis.errors.FlakyFailure) as e:
+            # Flaky can only come from the shrink budget (cases other than the best one stop failing
+            # once it is used up); the recorded best case failed for real, so it is reported as is.
+            if state["v"] is None:
+                raise HarnessError(f"flaky test without recorded failure: {e}")
             v = state["v"]
             rec.fail(v.signature, state["best"], v.observed, v.expected)
             excluded.add(v.signature)
-            remaining -= state["n"]
+            remaining -= state.get("n_gen", state["n"])
             continue
         except hypothesis.errors.Unsatisfiable as e:
             raise HarnessError(f"generator unsatisfiable: {e}")
